@@ -29,4 +29,10 @@ MUTANTS = [
     M('C03', 'EQ resolver slice bound spelled differently', PARSER, "        return '.'.join(curr_namespace[: len(curr_namespace) - (num_of_dots - 1)] + [without_dots])", "        return '.'.join(curr_namespace[: len(curr_namespace) + 1 - num_of_dots] + [without_dots])", None),
     M('C03', 'EQ rename/eval chained', PRE, "            op = op.rename_iterator(hygienic_iterator)\n            op = op.eval_new(params_dict)\n",
       "            op = op.rename_iterator(hygienic_iterator)\n            op = op.eval_new(params_dict)  # substitute params after the rename\n", None),
+    M('C03', 'a rep iterator is no longer compared with the constants (F25 returns)', 'flipjump/assembler/fj_parser.py',
+      "        macro_name, lineno = p.id\n        self.validate_rep_iterator(p.ID, lineno)\n        code_position = get_position(lineno)\n        return RepCall(p.expr, p.ID, macro_name, p.expressions, code_position)",
+      "        macro_name, lineno = p.id\n        code_position = get_position(lineno)\n        return RepCall(p.expr, p.ID, macro_name, p.expressions, code_position)", 'C03.BINDERS'),
+    M('C03', 'EQ the rep iterator test written in the rule itself', 'flipjump/assembler/fj_parser.py',
+      "        macro_name, lineno = p.id\n        self.validate_rep_iterator(p.ID, lineno)\n        code_position = get_position(lineno)\n        return RepCall(p.expr, p.ID, macro_name, [], code_position)",
+      "        macro_name, lineno = p.id\n        if p.ID in self.consts:\n            syntax_error(lineno, f'rep iterator {p.ID} is also defined as a constant variable (with value {self.consts[p.ID]})')\n        code_position = get_position(lineno)\n        return RepCall(p.expr, p.ID, macro_name, [], code_position)", None),
 ]
